@@ -27,7 +27,7 @@ EXTENDS Notif, Integers, SequencesExt, FiniteSetsExt, Json
 
 CONSTANTS AutoSet,    \* endpoints configured with auto-accept
           Dial,       \* should_dial
-          MaxOpen, MaxClose, MaxCut, MaxRec, MaxFail, MaxSub,
+          MaxOpen, MaxClose, MaxCut, MaxRec, MaxFail, MaxSub, MaxStall,
           KnownTags   \* tags of panic arms / defects already recorded as findings
 
 VARIABLES w, mon, hist
@@ -45,7 +45,7 @@ Init ==
   /\ w = [st |-> [e \in E |-> Closed(0)],            \* PeerState of the other endpoint (None = not in `peers`)
           pout |-> [e \in E |-> {}],                  \* pending_outbound (substream ids)
           hsI |-> [e \in E |-> NoHs], hsO |-> [e \in E |-> NoHs],   \* HandshakeService entries
-          vf |-> [e \in E |-> <<>>],                  \* pending_validations futures: "wait" | "accept" | "reject"
+          vf |-> [e \in E |-> <<>>],                  \* pending_validations futures [id, r]: r = "wait" | "accept" | "reject"
           subs |-> <<>>,                              \* substreams: [from, sid, a, b, h1, h2]
           oreq |-> {},                                \* substream open requests in flight in the connection
           nsid |-> [e \in E |-> 1],
@@ -56,10 +56,11 @@ Init ==
           ct |-> [e \in E |-> {}],                    \* connection tasks [id, i, o, st, sig]
           ntask |-> 0,
           hopen |-> [e \in E |-> FALSE],              \* handle.peers contains the peer
-          hval |-> [e \in E |-> FALSE],               \* handle.pending_validations contains the peer
+          hval |-> [e \in E |-> 0],                   \* id of the validation whose sender handle.pending_validations holds (0 = none)
+          nval |-> 0,
           conn |-> "up", ep |-> 1,
           alive |-> [e \in E |-> TRUE],               \* the protocol loop has not panicked
-          nOpen |-> [e \in E |-> 0], nClose |-> [e \in E |-> 0], nCut |-> 0, nRec |-> 0, nFail |-> 0,
+          nOpen |-> [e \in E |-> 0], nClose |-> [e \in E |-> 0], nCut |-> 0, nRec |-> 0, nFail |-> 0, nStall |-> 0,
           kf |-> {}]
   \* both endpoints start connected (ConnectionEstablished already handled: state Closed)
   /\ mon = [e \in E |-> MonEnv(MonInit({Other(e)}, e \in AutoSet), Other(e), "up")]
@@ -67,7 +68,7 @@ Init ==
 
 -----------------------------------------------------------------------------
 (* helpers                                                                   *)
-Rep(x, e, k) == [x EXCEPT !.evq[e] = Append(@, k)]
+Rep(x, e, k) == [x EXCEPT !.evq[e] = Append(@, [k |-> k, id |-> 0])]
 Panic(x, e, tag) == [x EXCEPT !.alive[e] = FALSE, !.kf = @ \cup {tag}]
 SetSt(x, e, s) == [x EXCEPT !.st[e] = s]
 \* drop / close the end of substream s held by endpoint e
@@ -233,7 +234,9 @@ OnHsInOk(x, e) ==
   IF s.k = "none" THEN Panic(DropEnd(x1, e, sub), e, "handshake-peer-missing")
   ELSE IF s.k = "val" /\ s.in = "reading" THEN
        IF s.out # "closed" /\ e \in AutoSet THEN SetSt(SendHs(x1, e, sub), e, [s EXCEPT !.in = "sending"])
-       ELSE Rep([SetSt(x1, e, [s EXCEPT !.in = "validating", !.isub = sub]) EXCEPT !.vf[e] = Append(@, "wait")], e, "validate")
+       ELSE [SetSt(x1, e, [s EXCEPT !.in = "validating", !.isub = sub]) EXCEPT
+                 !.vf[e] = Append(@, [id |-> x.nval + 1, r |-> "wait"]), !.nval = @ + 1,
+                 !.evq[e] = Append(@, [k |-> "validate", id |-> x.nval + 1])]
   ELSE IF s.k = "val" /\ s.in = "sending" THEN HsTail(SetSt(x1, e, [s EXCEPT !.in = "open", !.isub = sub]), e)
   ELSE Panic(SetSt(DropState(DropEnd(x1, e, sub), e), e, [k |-> "poisoned"]), e, "inbound-negotiated-unexpected-" \o s.k)
 
@@ -259,7 +262,7 @@ InErr(x, e) == /\ x.hsI[e].sub # 0
 B1(x, e) == OutOk(x, e) \/ OutErr(x, e) \/ InReadOk(x, e) \/ InSendOk(x, e) \/ InErr(x, e)
 B2(x, e) == x.sdq[e] # <<>>
 B4(x, e) == x.tq[e] # <<>>
-B5(x, e) == \E i \in DOMAIN x.vf[e] : x.vf[e][i] # "wait"
+B5(x, e) == \E i \in DOMAIN x.vf[e] : x.vf[e][i].r # "wait"
 B6(x, e) == x.cmdq[e] # <<>>
 
 Step(x2) == w' = x2 /\ UNCHANGED <<mon, hist>>
@@ -274,17 +277,9 @@ ProtoHs(e) ==
 ProtoShutdown(e) ==
   /\ w.alive[e] /\ ~B1(w, e) /\ B2(w, e)
   \* `context.state = PeerState::Closed { pending_open: None }` whatever the state was
-  /\ Step([(IF w.st[e].k = "none" THEN w ELSE SetSt(DropState(w, e), e, Closed(0))) EXCEPT !.sdq[e] = Tail(@)])
-
-\* timers arm: "peer didn't answer": outbound open, no inbound substream
-ProtoTimer(e) ==
-  /\ w.alive[e] /\ ~B1(w, e) /\ ~B2(w, e)
-  /\ w.st[e].k = "val" /\ w.st[e].out = "open" /\ w.st[e].in = "closed"
-  /\ LET x1 == Rep(SetSt(DropEnd(w, e, w.st[e].osub), e, Closed(0)), e, "openfail") IN
-     \* service.force_close(peer)
-     /\ w' = (IF x1.conn = "up" THEN KillConn(x1) ELSE x1)
-     /\ mon' = [f \in E |-> MonEnv(mon[f], Other(f), "cut")]
-     /\ UNCHANGED hist
+  \* (an overwritten PeerState::Open drops its shutdown sender: that Connection task closes too)
+  /\ LET x1 == IF w.st[e].k = "open" THEN SignalTask(w, e, w.st[e].task) ELSE w IN
+     Step([(IF w.st[e].k = "none" THEN w ELSE SetSt(DropState(x1, e), e, Closed(0))) EXCEPT !.sdq[e] = Tail(@)])
 
 ProtoTransport(e) ==
   /\ w.alive[e] /\ ~B1(w, e) /\ ~B2(w, e) /\ B4(w, e)
@@ -300,8 +295,8 @@ ProtoTransport(e) ==
 ProtoValidation(e) ==
   /\ w.alive[e] /\ ~B1(w, e) /\ ~B2(w, e) /\ ~B4(w, e) /\ B5(w, e)
   /\ \E i \in DOMAIN w.vf[e] :
-       /\ w.vf[e][i] # "wait"
-       /\ Step(OnValidation([w EXCEPT !.vf[e] = RemoveAt(@, i)], e, w.vf[e][i]))
+       /\ w.vf[e][i].r # "wait"
+       /\ Step(OnValidation([w EXCEPT !.vf[e] = RemoveAt(@, i)], e, w.vf[e][i].r))
 
 ProtoCommand(e) ==
   /\ w.alive[e] /\ ~B1(w, e) /\ ~B2(w, e) /\ ~B4(w, e) /\ ~B5(w, e) /\ B6(w, e)
@@ -318,16 +313,13 @@ CtDetect(e) ==
     /\ c.st = "run" /\ CtClosable(w, e, c)
     /\ Step([DropEnd(DropEnd(w, e, c.i), e, c.o) EXCEPT
                !.ct[e] = (@ \ {c}) \cup {[c EXCEPT !.st = IF c.sig THEN "report" ELSE "notify"]}])
-\* conn_closed_tx.send(peer)
-CtNotify(e) ==
-  \E c \in w.ct[e] :
-    /\ c.st = "notify"
-    /\ Step([w EXCEPT !.sdq[e] = Append(@, "sd"), !.ct[e] = (@ \ {c}) \cup {[c EXCEPT !.st = "report"]}])
-\* report_notification_stream_closed
+\* conn_closed_tx.send(peer).await (if not asked to shut down by the protocol) and then
+\* report_notification_stream_closed().await: two sends into channels with free capacity complete
+\* without yielding, so the task cannot be descheduled between them (assumption: channels not full)
 CtReport(e) ==
   \E c \in w.ct[e] :
-    /\ c.st = "report"
-    /\ Step(Rep([w EXCEPT !.ct[e] = @ \ {c}], e, "closed"))
+    /\ c.st \in {"notify", "report"}
+    /\ Step(Rep([w EXCEPT !.ct[e] = @ \ {c}, !.sdq[e] = IF c.st = "notify" THEN Append(@, "sd") ELSE @], e, "closed"))
 
 -----------------------------------------------------------------------------
 (* environment: the connection (ConnLife guarantees)                          *)
@@ -343,13 +335,6 @@ EnvOpenFail ==
   \E r \in w.oreq :
     /\ w.nFail < MaxFail
     /\ Step([w EXCEPT !.oreq = @ \ {r}, !.nFail = @ + 1, !.tq[r.e] = Append(@, [t |-> "fail", sid |-> r.sid])])
-\* negotiation timeout (10 s): only when the handshake is really stuck
-EnvTimeout(e) ==
-  \/ /\ w.hsO[e].sub # 0 /\ ~w.hsO[e].to /\ ~OutOk(w, e) /\ ~OutErr(w, e)
-     /\ Step([w EXCEPT !.hsO[e].to = TRUE])
-  \/ /\ w.hsI[e].sub # 0 /\ w.hsI[e].ph = "read" /\ ~w.hsI[e].to /\ ~InReadOk(w, e) /\ ~InErr(w, e)
-     /\ Step([w EXCEPT !.hsI[e].to = TRUE])
-
 Note(a) == hist' = Append(hist, a)
 
 EnvCut ==
@@ -367,6 +352,37 @@ EnvDialFail(e) ==
   /\ w.nRec >= MaxRec
   /\ Step([w EXCEPT !.tq[e] = Append(@, [t |-> "dialfail"])])
 
+\* every internal step that needs no timer
+Fast == \/ \E e \in E : ProtoHs(e) \/ ProtoShutdown(e) \/ ProtoTransport(e) \/ ProtoValidation(e) \/ ProtoCommand(e)
+                       \/ CtDetect(e) \/ CtReport(e) \/ EnvDialFail(e)
+        \/ EnvOpenOk \/ EnvOpenFail
+
+\* timers arm: "peer didn't answer": outbound open, no inbound substream
+ProtoTimer(e) ==
+  /\ w.alive[e] /\ ~B1(w, e) /\ ~B2(w, e)
+  /\ ~ENABLED Fast     \* 5 s is long compared with every internal step
+  /\ w.st[e].k = "val" /\ w.st[e].out = "open" /\ w.st[e].in = "closed"
+  /\ LET x1 == Rep(SetSt(DropEnd(w, e, w.st[e].osub), e, Closed(0)), e, "openfail") IN
+     \* service.force_close(peer)
+     /\ w' = (IF x1.conn = "up" THEN KillConn(x1) ELSE x1)
+     /\ mon' = [f \in E |-> MonEnv(mon[f], Other(f), "down")]
+     /\ UNCHANGED hist
+
+\* negotiation timeout (10 s)
+TimeoutTo(e) ==
+  \/ /\ w.hsO[e].sub # 0 /\ ~w.hsO[e].to /\ ~OutOk(w, e) /\ ~OutErr(w, e)
+     /\ w' = [w EXCEPT !.hsO[e].to = TRUE]
+  \/ /\ w.hsI[e].sub # 0 /\ w.hsI[e].ph = "read" /\ ~w.hsI[e].to /\ ~InReadOk(w, e) /\ ~InErr(w, e)
+     /\ w' = [w EXCEPT !.hsI[e].to = TRUE]
+\* ... fires when the handshake is stuck for want of a user action: 10 s is long compared with every internal step
+EnvTimeout(e) == ~ENABLED Fast /\ TimeoutTo(e) /\ UNCHANGED <<mon, hist>>
+\* ... or because the environment starved the tasks for that long: a fault the monitor is told about
+EnvStallTimeout(e) ==
+  /\ w.nStall < MaxStall /\ ENABLED Fast
+  /\ \E x \in {w} : TimeoutTo(e)
+  /\ mon' = [f \in E |-> MonEnv(mon[f], Other(f), "stall")]
+  /\ Note([a |-> "stall", e |-> e])
+
 -----------------------------------------------------------------------------
 (* the user of the NotificationHandle                                         *)
 UOpen(e) ==
@@ -380,30 +396,28 @@ UClose(e) ==
   /\ mon' = [mon EXCEPT ![e] = MonClose(@, Other(e), "sent")]
   /\ Note([a |-> "close", e |-> e])
 UVal(e, v) ==
-  /\ w.hval[e]
-  \* the handle keeps one sender per peer: it belongs to the youngest validation request
-  /\ LET i == Len(w.vf[e]) IN
-     /\ i > 0 /\ w.vf[e][i] = "wait"
-     /\ w' = [w EXCEPT !.vf[e][i] = v, !.hval[e] = FALSE]
+  /\ w.hval[e] # 0
+  \* the handle keeps one sender per peer (of the validation request pulled last)
+  /\ w' = [w EXCEPT !.vf[e] = [i \in DOMAIN @ |-> IF @[i].id = w.hval[e] THEN [@[i] EXCEPT !.r = v] ELSE @[i]], !.hval[e] = 0]
   /\ mon' = [mon EXCEPT ![e] = MonVal(@, Other(e), v, "sent")]
   /\ Note([a |-> "val", e |-> e, v |-> v])
 UPull(e) ==
   /\ w.evq[e] # <<>>
-  /\ LET k == Head(w.evq[e]) IN
+  /\ LET k == Head(w.evq[e]).k
+         id == Head(w.evq[e]).id IN
      /\ w' = [w EXCEPT !.evq[e] = Tail(@),
                        !.hopen[e] = IF k = "opened" THEN TRUE ELSE IF k = "closed" THEN FALSE ELSE @,
-                       !.hval[e] = IF k = "validate" THEN TRUE ELSE @,
+                       !.hval[e] = IF k = "validate" THEN id ELSE @,
                        \* inserting a new sender drops the previous one: its future resolves to Reject
-                       !.vf[e] = IF k = "validate" /\ w.hval[e]
-                                   THEN [i \in DOMAIN @ |-> IF i < Len(@) /\ @[i] = "wait" THEN "reject" ELSE @[i]] ELSE @]
+                       !.vf[e] = IF k = "validate" /\ w.hval[e] # 0
+                                   THEN [i \in DOMAIN @ |-> IF @[i].id = w.hval[e] /\ @[i].r = "wait" THEN [@[i] EXCEPT !.r = "reject"] ELSE @[i]]
+                                   ELSE @]
      /\ mon' = [mon EXCEPT ![e] = MonEvent(@, Other(e), k)]
      /\ Note([a |-> "pull", e |-> e, k |-> k])
 
-Internal == \/ \E e \in E : ProtoHs(e) \/ ProtoShutdown(e) \/ ProtoTimer(e) \/ ProtoTransport(e) \/ ProtoValidation(e)
-                           \/ ProtoCommand(e) \/ CtDetect(e) \/ CtNotify(e) \/ CtReport(e) \/ EnvTimeout(e) \/ EnvDialFail(e)
-            \/ EnvOpenOk \/ EnvOpenFail
+Internal == \/ Fast \/ \E e \in E : ProtoTimer(e) \/ EnvTimeout(e)
 Next == \/ Internal
-        \/ EnvCut \/ EnvReconnect
+        \/ EnvCut \/ EnvReconnect \/ \E e \in E : EnvStallTimeout(e)
         \/ \E e \in E : UOpen(e) \/ UClose(e) \/ UPull(e) \/ \E v \in {"accept", "reject"} : UVal(e, v)
 
 Spec == Init /\ [][Next]_vars
@@ -413,10 +427,10 @@ Spec == Init /\ [][Next]_vars
 MonOK == \A e \in E : mon[e].bad = ""
 \* Poisoned / debug_assert!(false) arms: only the recorded ones may be reachable
 NoUnknownPanic == w.kf \subseteq KnownTags
-NoPoison == \A e \in E : w.st[e].k # "poisoned" \/ w.kf \cap KnownTags # {}
 \* nothing can happen any more without the user or a fault
 Quiescent == /\ \A e \in E : w.alive[e]
              /\ ~ENABLED Internal
+             /\ w.oreq = {}
              /\ \A e \in E : w.evq[e] = <<>> /\ w.hsI[e].sub = 0 /\ w.hsO[e].sub = 0
 QuiesceOK == Quiescent => \A e \in E : MonQuiesce(mon[e], TRUE).bad = ""
 \* handle and protocol agree at quiescence (an open stream in the user's view has a live task or state Open)
